@@ -410,6 +410,12 @@ def check_remainder(cx: Cx, ob: Ob) -> None:
                 else:
                     ob.undecide(f"parse_uri probes reverse_prefix_map with `{show(K)[:40]}` over `{show(rng)[:40]}`: that the first hit is the longest prefix is not decided")
                 continue
+            if K is not None and K == uri:
+                # the WHOLE argument is a key: no longer key can be a prefix of it, so the hit is the longest match
+                ob.site(f"{where(fn, line)} {fn.qualname}", "direct hit of the whole URI in reverse_prefix_map (nothing longer can be a prefix of it)")
+                if not (is_const(I, "") or (op(I) == "slice" and I[1] == uri and I[2] == ("call", ("builtin", "len"), (uri,), ()) and is_const(I[3], None))):
+                    ob.undecide(f"parse_uri answers a whole-URI hit with the identifier `{show(I)[:40]}` (expected '')")
+                continue
             if K is not None and any(x == uri for x in subterms(K)):
                 from ..rules import guard_atoms
 
